@@ -10,6 +10,7 @@ use serde::{Deserialize, Serialize};
 ///  5 near-dup: one middle byte differs                           6 proper prefix of (0,len+1+..,seed)
 ///  7 hash-adversarial family (see DESIGN C01 note 3): 16-byte blocks whose first 8 bytes equal an
 ///    ahash fallback key word, so the second 8 bytes are multiplied by zero
+///  8 the seed's little-endian bytes (distinct by construction)
 #[derive(Clone, Copy, Debug, PartialEq, Eq, Hash, Serialize, Deserialize, PartialOrd, Ord)]
 pub struct ContentSpec {
     pub kind: u8,
@@ -67,6 +68,13 @@ impl ContentSpec {
                 for ch in v.chunks_mut(16) {
                     ch[..8].copy_from_slice(&ADV_KEY.to_le_bytes());
                     ch[8..16].copy_from_slice(&r.next().to_le_bytes());
+                }
+            }
+            8 => {
+                // the seed itself, little endian (distinct seeds < 2^(8*len) give distinct contents)
+                let b = self.seed.to_le_bytes();
+                for (i, x) in v.iter_mut().enumerate() {
+                    *x = if i < 4 { b[i] } else { 0 };
                 }
             }
             _ => {
